@@ -7,6 +7,7 @@ import (
 	"bytes"
 	"fmt"
 	"sort"
+	"sync"
 	"testing"
 
 	"github.com/algorand/go-algorand/crypto"
@@ -304,19 +305,23 @@ func TestVerifC17Exhaustive(t *testing.T) {
 	}
 	u4 := [][]byte{{0, 0, 0}, {0, 0, 1}, {0, 1, 0}, {1, 0, 0}}
 	u6 := append(append([][]byte{}, u4...), []byte{0, 0, 2}, []byte{0, 1, 1})
-	unis := []uni{{u4, c.N(5, 6)}, {u6, c.N(4, 5)}}
-	cfgs := []struct {
+	p2c1 := merkletrie.MemoryConfig{NodesCountPerPage: 2, CachedNodesCount: 1, PageFillFactor: 0.5, MaxChildrenPagesThreshold: 1}
+	p3c2 := merkletrie.MemoryConfig{NodesCountPerPage: 3, CachedNodesCount: 2, PageFillFactor: 0.95, MaxChildrenPagesThreshold: 2}
+	p116 := merkletrie.MemoryConfig{NodesCountPerPage: 116, CachedNodesCount: 16, PageFillFactor: 0.95, MaxChildrenPagesThreshold: 32}
+	type cfgT struct {
 		name string
 		cfg  merkletrie.MemoryConfig
-	}{
-		{"p2c1", merkletrie.MemoryConfig{NodesCountPerPage: 2, CachedNodesCount: 1, PageFillFactor: 0.5, MaxChildrenPagesThreshold: 1}},
-		{"p3c2", merkletrie.MemoryConfig{NodesCountPerPage: 3, CachedNodesCount: 2, PageFillFactor: 0.95, MaxChildrenPagesThreshold: 2}},
 	}
-	if !c.Quick() {
-		cfgs = append(cfgs, struct {
-			name string
-			cfg  merkletrie.MemoryConfig
-		}{"p116", merkletrie.MemoryConfig{NodesCountPerPage: 116, CachedNodesCount: 16, PageFillFactor: 0.95, MaxChildrenPagesThreshold: 32}})
+	type job struct {
+		uni
+		cfgs []cfgT
+	}
+	var unis []job
+	if c.Quick() {
+		unis = []job{{uni{u4, 5}, []cfgT{{"p2c1", p2c1}, {"p3c2", p3c2}}}, {uni{u6, 4}, []cfgT{{"p2c1", p2c1}, {"p3c2", p3c2}}}}
+	} else {
+		unis = []job{{uni{u4, 6}, []cfgT{{"p2c1", p2c1}}}, {uni{u4, 5}, []cfgT{{"p3c2", p3c2}, {"p116", p116}}},
+			{uni{u6, 5}, []cfgT{{"p2c1", p2c1}}}, {uni{u6, 4}, []cfgT{{"p3c2", p3c2}, {"p116", p116}}}}
 	}
 	for _, u := range unis {
 		var alphabet []op
@@ -327,31 +332,56 @@ func TestVerifC17Exhaustive(t *testing.T) {
 			alphabet = append(alphabet, op{opDel, k})
 		}
 		alphabet = append(alphabet, op{Kind: opCommit}, op{Kind: opEvictCommit}, op{Kind: opEvict}, op{Kind: opReload})
-		for _, cf := range cfgs {
-			seq := make([]op, 0, u.maxLen)
-			var rec func(depth int)
-			rec = func(depth int) {
-				if c.Violations() > 20 {
-					return
-				}
-				if depth > 0 {
-					runSeq(c, cf.cfg, seq, cf.name)
-					c.Count("sequences", 1)
-				}
-				if depth == u.maxLen {
-					return
-				}
-				for _, a := range alphabet {
-					// prune: sequences that start with a no-op on the empty trie add nothing
-					if depth == 0 && a.Kind != opAdd {
-						continue
+		for _, cf := range u.cfgs {
+			// work units = first operation (always an add) x second operation; enumerated by 16 workers
+			type unit struct{ a, b int }
+			units := make(chan unit, 1024)
+			var wg sync.WaitGroup
+			for w := 0; w < 16; w++ {
+				wg.Add(1)
+				go func() {
+					defer wg.Done()
+					for un := range units {
+						seq := make([]op, 0, u.maxLen)
+						var rec func(depth int)
+						rec = func(depth int) {
+							if c.Violations() > 20 {
+								return
+							}
+							runSeq(c, cf.cfg, seq, cf.name)
+							c.Count("sequences", 1)
+							if depth == u.maxLen {
+								return
+							}
+							for _, a := range alphabet {
+								seq = append(seq, a)
+								rec(depth + 1)
+								seq = seq[:len(seq)-1]
+							}
+						}
+						seq = append(seq, alphabet[un.a])
+						if un.b < 0 {
+							runSeq(c, cf.cfg, seq, cf.name)
+							c.Count("sequences", 1)
+							continue
+						}
+						seq = append(seq, alphabet[un.b])
+						rec(2)
 					}
-					seq = append(seq, a)
-					rec(depth + 1)
-					seq = seq[:len(seq)-1]
+				}()
+			}
+			for a := range alphabet {
+				// prune: sequences that start with a no-op on the empty trie add nothing
+				if alphabet[a].Kind != opAdd {
+					continue
+				}
+				units <- unit{a, -1}
+				for b := range alphabet {
+					units <- unit{a, b}
 				}
 			}
-			rec(0)
+			close(units)
+			wg.Wait()
 		}
 	}
 	c.Exhaustive()
